@@ -56,7 +56,7 @@ macro_rules | `(tactic| chainfact $hc) => `(tactic|
     | (have hf := cWork_recvd (by first | (simp; done) | exact cNext_work (by assumption)) $hc; exact hf))
 
 /-- sender-side steps: receiver fields untouched, chain moved only by producer / walk labels -/
-theorem stepS_frame {cfg : Cfg} {s s' : State} {t h : Nat} (hs : stepS cfg s t h = some s') :
+theorem stepS_frame {cfg : Cfg} {s s' : State} {h : Nat} (hs : stepS cfg s h = some s') :
     sameR s s' ∧ s'.ch.recvd = s.ch.recvd ∧ cPend s'.ch.cpc = cPend s.ch.cpc := by
   unfold stepS stepS_chk stepS_chain stepS_rec stepS_nLoadS stepS_nLockS stepS_nUnlockS stepS_nUnparkS stepS_nLoadA
     stepS_nLockA stepS_nUnlockA stepS_wakeA stepS_unparkA stepS_closeChain stepS_wLockS stepS_wUnparkS stepS_wLockA
@@ -144,7 +144,7 @@ theorem invA_triDone {s s' : State} {res : TRes} (hout : s.ch.recvd = s.taken ++
       | (cases hs; constructor <;> simp_all [popPhase])
 
 
-theorem invA_stepR {cfg : Cfg} {s s' : State} {t : Nat} (hi : InvA s) (hs : stepR cfg s t = some s') : InvA s' := by
+theorem invA_stepR {cfg : Cfg} {s s' : State} (hi : InvA s) (hs : stepR cfg s = some s') : InvA s' := by
   have ho := hi.out
   unfold stepR at hs
   split at hs
